@@ -4,4 +4,5 @@
 pub mod lru_ref;
 pub mod mani_sub;
 pub mod stdout;
+pub mod wire;
 pub mod wl_ref;
